@@ -14,8 +14,8 @@ from mc.e1 import outcome_of
 from mc.universe import Leaf
 
 PROP = 'C12'
-OBS_NS = ('', 'a', 'b', 'unk')
-REG_NS = ('', 'a', 'b')  # '' stands for the global sentinel here
+OBS_NS = ('', 'a', 'ab', 'xaby')  # 'a' is a substring of 'ab', both of 'xaby' (namespace lookups must be exact matches)
+REG_NS = ('', 'a', 'ab')  # '' stands for the global sentinel here  # 'a' is a substring of 'ab', both of 'xaby' (namespace lookups must be exact matches)
 TYPE_NAMES = {'quick': ('T0', 'T1', 'T2', 'T4'), 'thorough': ('T0', 'T1', 'T2', 'T3', 'T4')}
 
 
@@ -218,7 +218,7 @@ class RegistrySystem(explore.System):
         if kind == 'class-no-namespace':
             return outcome_of(lambda: optree.register_pytree_node_class(T['T0']))
         if kind == 'class-string-and-namespace':
-            return outcome_of(lambda: optree.register_pytree_node_class('a', namespace='b'))
+            return outcome_of(lambda: optree.register_pytree_node_class('a', namespace='ab'))
         raise AssertionError(kind)
 
     def observe(self, w):  # noqa: C901
